@@ -42,6 +42,20 @@ func unwrapHook(v reflect.Value) reflect.Value {
 	return v
 }
 
+// shoutHook: unwrapHook, and string-kind values (json.Number aside) become their upper-cased copy -
+// the shape of a hook that turns messages into generic maps and enums into their names.
+func shoutHook(v reflect.Value) reflect.Value {
+	v = unwrapHook(v)
+	d := v
+	for d.IsValid() && d.Kind() == reflect.Interface && !d.IsNil() {
+		d = d.Elem()
+	}
+	if d.IsValid() && d.Kind() == reflect.String && d.Type() != reflect.TypeOf(json.Number("")) {
+		return reflect.ValueOf(strings.ToUpper(d.String()))
+	}
+	return v
+}
+
 func identityHook(v reflect.Value) reflect.Value { return v }
 
 func constHook(reflect.Value) reflect.Value { return reflect.ValueOf("K") }
@@ -62,6 +76,8 @@ func (o Opts) Options() []bexpr.Option {
 		out = append(out, bexpr.WithHookFn(unwrapHook))
 	case ref.HookConst:
 		out = append(out, bexpr.WithHookFn(constHook))
+	case ref.HookShout:
+		out = append(out, bexpr.WithHookFn(shoutHook))
 	}
 	if o.MaxExpr != 0 {
 		out = append(out, bexpr.WithMaxExpressions(o.MaxExpr))
